@@ -518,6 +518,22 @@ fn check_app(c: &C03App) -> Outcome {
         q.insert("state_features".into(), serde_json::Value::Object(f));
     }
     let query = serde_json::Value::Object(q);
+    // another query runs first on the same application, declaring the state the other way
+    // round (own declaration <-> none): nothing of it may carry over into the judged query
+    {
+        let mut d = serde_json::Map::new();
+        d.insert("origin_vertex".into(), json!(sc.d.unwrap_or(0)));
+        d.insert("destination_vertex".into(), json!(sc.o));
+        if c.query_state.is_none() {
+            let mut f = serde_json::Map::new();
+            f.insert(DIST.into(), json!({"distance_unit": DIST_UNIT_NAMES[(sc.spec.state.dist_unit as usize + 1) % 5], "initial": 1234.5}));
+            if has_time {
+                f.insert(TIME.into(), json!({"time_unit": TIME_UNIT_NAMES[(sc.spec.state.time_unit as usize + 1) % 4], "initial": 77.25}));
+            }
+            d.insert("state_features".into(), serde_json::Value::Object(f));
+        }
+        let _ = capp.run(vec![serde_json::Value::Object(d)], Some(&json!({"parallelism": 1})));
+    }
     let resp = match capp.run(vec![query.clone()], Some(&json!({"parallelism": 1}))) {
         Ok(r) if r.len() == 1 => r.into_iter().next().unwrap(),
         Ok(r) => {
